@@ -31,6 +31,15 @@ class Binding:
         self.ordered = ordered
 
 
+def mk_forall(vs, body, patterns=None):
+    """z3.ForAll with a fallback: a pattern that z3 rejects (e.g. one containing an `ite`) is dropped."""
+    patterns = patterns or []
+    try:
+        return z3.ForAll(vs, body, patterns=patterns)
+    except z3.Z3Exception:
+        return z3.ForAll(vs, body)
+
+
 def is_concrete_iterable(v) -> bool:
     if isinstance(v, (PyList, tuple, list, PySet, V.GeneratorV, PyDict, str, RecV, V.ConcreteIter)):
         return True
@@ -120,13 +129,13 @@ def bind_group(engine, ctx, d: V.GroupDict) -> Binding:
     j, j2, i = z3.Ints("gj gj2 gi")
     facts = [
         ln >= 1,
-        z3.ForAll([j], z3.Implies(z3.And(0 <= j, j < ln),
+        mk_forall([j], z3.Implies(z3.And(0 <= j, j < ln),
                                   z3.And(0 <= idx(j), idx(j) < n, keyat(idx(j)) == K,
                                          z3.Select(arr, j) == z3.Select(src.arr, idx(j)))),
                   patterns=[z3.Select(arr, j)]),
-        z3.ForAll([j, j2], z3.Implies(z3.And(0 <= j, j < j2, j2 < ln), idx(j) < idx(j2)),
+        mk_forall([j, j2], z3.Implies(z3.And(0 <= j, j < j2, j2 < ln), idx(j) < idx(j2)),
                   patterns=[z3.MultiPattern(idx(j), idx(j2))]),
-        z3.ForAll([i], z3.Implies(z3.And(0 <= i, i < n, keyat(i) == K),
+        mk_forall([i], z3.Implies(z3.And(0 <= i, i < n, keyat(i) == K),
                                   z3.And(0 <= inv(i), inv(i) < ln, idx(inv(i)) == i,
                                          z3.Select(arr, inv(i)) == z3.Select(src.arr, i))),
                   patterns=[z3.Select(src.arr, i)]),
@@ -165,9 +174,14 @@ class Collector:
             by_set.setdefault(id(rec[0]), (rec[0], []))[1].append(rec)
         for _, (s, recs) in by_set.items():
             old = s.term
+            canon = canonical_image(ctx, old, recs)
+            if canon is not None:
+                s.term = canon
+                continue
             new = ctx.fresh("built", old.sort())
             y = z3.FreshConst(s.elem_sort, "y")
-            disj = [z3.Select(old, y)]
+            old_empty = _is_empty_set(old)
+            disj = [] if old_empty else [z3.Select(old, y)]
             for (_, consts, guards, elem, pats) in recs:
                 vs = [z3.FreshConst(c.sort(), "v") for c in consts]
                 sub = list(zip(consts, vs))
@@ -178,7 +192,7 @@ class Collector:
                 pat = []
                 if pp and _covers_all(pp, vs):
                     pat = [z3.MultiPattern(*pp)] if len(pp) > 1 else [pp[0]]
-                ctx.add_axiom(z3.ForAll(vs, z3.Implies(g, z3.Select(new, e)), patterns=pat))
+                ctx.add_axiom(mk_forall(vs, z3.Implies(g, z3.Select(new, e)), patterns=pat))
                 # witness functions for the converse
                 ws = [z3.Function("w!%s!%d" % (str(c), ctx.counter), s.elem_sort, c.sort())(y) for c in consts]
                 ctx.counter += 1
@@ -186,9 +200,83 @@ class Collector:
                 gw = z3.And(*[z3.substitute(x, *subw) for x in guards]) if guards else z3.BoolVal(True)
                 ew = z3.substitute(elem, *subw)
                 disj.append(z3.And(gw, y == ew))
-            ctx.add_axiom(z3.ForAll([y], z3.Implies(z3.Select(new, y), z3.Or(*disj)), patterns=[z3.Select(new, y)]))
-            ctx.add_axiom(z3.ForAll([y], z3.Implies(z3.Select(old, y), z3.Select(new, y)), patterns=[z3.Select(old, y)]))
+            ctx.add_axiom(mk_forall([y], z3.Implies(z3.Select(new, y), z3.Or(*disj)), patterns=[z3.Select(new, y)]))
+            if not old_empty:
+                ctx.add_axiom(mk_forall([y], z3.Implies(z3.Select(old, y), z3.Select(new, y)), patterns=[z3.Select(old, y)]))
             s.term = new
+
+
+def _is_empty_set(t) -> bool:
+    t = z3.simplify(t)
+    return z3.is_const_array(t) and z3.is_false(t.arg(0))
+
+
+def _mentions(t, c) -> bool:
+    acc = set()
+    _vars_in(t, acc)
+    return c.get_id() in acc
+
+
+def canonical_image(ctx, old, recs):
+    """Recognise the image forms of the set theory so that built sets are spec terms rather than fresh constants:
+         { x | x in S } = S,  { x % d | x in S } = modset(S, d),  { pad(r, x) | x in S } = padset(S, r),
+       where S may be a plain set, kfold(S0, k), nsum(F, n) or - for a range-bound outer variable - rangefold(S0, K)."""
+    from . import settheory as st
+
+    if len(recs) != 1 or not _is_empty_set(old):
+        return None
+    _, consts, guards, elem, pats = recs[0]
+    if old.sort() != st.S:
+        return None
+    dom = None
+    x = None
+    if len(consts) == 1 and len(guards) == 1:
+        g = guards[0]
+        x = consts[0]
+        if z3.is_select(g) and g.arg(1).eq(x) and not _mentions(g.arg(0), x):
+            dom = g.arg(0)
+    elif len(consts) == 2 and len(guards) == 3:
+        # for k in range(0, K+1): for el in combos(S, k): ...   guards: [0 <= k, k < K + 1, kfold(S, k)[x]]
+        k, x = consts
+        g0, g1, g2 = guards
+        g0s, g1s = z3.simplify(g0), z3.simplify(g1)
+        if z3.is_select(g2) and g2.arg(1).eq(x) and z3.is_app(g2.arg(0)) and g2.arg(0).decl().name() == "kfold" \
+                and g2.arg(0).arg(1).eq(k) and not _mentions(g2.arg(0).arg(0), k) and not _mentions(g2.arg(0).arg(0), x):
+            lo_ok = z3.is_true(z3.simplify(z3.substitute(g0, (k, z3.IntVal(0))))) and \
+                z3.is_false(z3.simplify(z3.substitute(g0, (k, z3.IntVal(-1)))))
+            if lo_ok and z3.is_app(g1) and g1.decl().kind() == z3.Z3_OP_LT and g1.arg(0).eq(k) and not _mentions(g1.arg(1), k):
+                hi = z3.simplify(g1.arg(1) - 1)
+                dom = st.rangefold_f(g2.arg(0).arg(0), hi)
+    if dom is None or x is None:
+        return None
+    if elem.eq(x):
+        return dom
+    if z3.is_app(elem) and elem.decl().name() == "pmod" and elem.arg(0).eq(x) and not _mentions(elem.arg(1), x):
+        return st.modset_f(dom, elem.arg(1))
+    if z3.is_app(elem) and elem.decl().kind() == z3.Z3_OP_MOD and elem.arg(0).eq(x) and not _mentions(elem.arg(1), x):
+        return st.modset_f(dom, elem.arg(1))
+    if z3.is_app(elem) and elem.decl().name() == "pad" and elem.arg(1).eq(x) and not _mentions(elem.arg(0), x):
+        return st.padset_f(dom, elem.arg(0))
+    return None
+
+
+def _skolem_apps(t, vs):
+    """Applications g!k(v...) of fresh (skolem) function symbols to exactly the bound variables."""
+    out, seen = [], set()
+    ids = [v.get_id() for v in vs]
+
+    def walk(x):
+        if x.get_id() in seen or z3.is_quantifier(x):
+            return
+        seen.add(x.get_id())
+        if z3.is_app(x) and x.num_args() == len(vs) and x.num_args() > 0 and x.decl().kind() == z3.Z3_OP_UNINTERPRETED \
+                and "!" in x.decl().name() and [a.get_id() for a in x.children()] == ids:
+            out.append(x)
+        for c in x.children():
+            walk(c)
+
+    walk(t)
+    return out
 
 
 def _vars_in(t, acc):
@@ -223,7 +311,7 @@ def state_binding_facts(ctx, b: Binding):
     pat = []
     if pp and _covers_all(pp, vs):
         pat = [z3.MultiPattern(*pp)] if len(pp) > 1 else [pp[0]]
-    ctx.assume(z3.ForAll(vs, z3.Implies(g, z3.And(*[z3.substitute(f, *sub) for f in b.facts])), patterns=pat))
+    ctx.assume(mk_forall(vs, z3.Implies(g, z3.And(*[z3.substitute(f, *sub) for f in b.facts])), patterns=pat))
 
 
 def run_under_binding(engine, ctx, b: Binding, body):
@@ -260,7 +348,15 @@ def run_under_binding(engine, ctx, b: Binding, body):
         pat = []
         if pp and _covers_all(pp, vs):
             pat = [z3.MultiPattern(*pp)] if len(pp) > 1 else [pp[0]]
-        ax = z3.ForAll(vs, z3.Implies(g, z3.substitute(f, *sub)), patterns=pat)
+        fsub = z3.substitute(f, *sub)
+        if pat:
+            # alternative triggers: applications of the skolem functions introduced under this binding
+            for t in _skolem_apps(fsub, vs)[:3]:
+                pat.append(t)
+        try:
+            ax = z3.ForAll(vs, z3.Implies(g, fsub), patterns=pat)
+        except z3.Z3Exception:
+            ax = mk_forall(vs, z3.Implies(g, fsub), patterns=pat[:1])
         if ctx.bound:
             # still inside an outer binding: the generalised fact is itself a fact under the outer bound variables
             ctx.pc.append(ax)
@@ -528,7 +624,11 @@ def seq_from_template(engine, ctx, src: SymSeq, b: Binding, v):
     i = z3.FreshConst(z3.IntSort(), "i")
     sub = [(b.consts[0], i)]
     g = z3.And(*[z3.substitute(x, *sub) for x in b.guards])
-    ax = z3.ForAll([i], z3.Implies(g, z3.Select(arr, i) == z3.substitute(term, *sub)), patterns=[z3.Select(arr, i)])
+    body = z3.Implies(g, z3.Select(arr, i) == z3.substitute(term, *sub))
+    try:
+        ax = z3.ForAll([i], body, patterns=[z3.Select(arr, i), z3.Select(src.arr, i)])
+    except z3.Z3Exception:
+        ax = mk_forall([i], body, patterns=[z3.Select(arr, i)])
     ctx.add_axiom(ax)
     return SymSeq(arr, src.length, kind, fresh=True)
 
@@ -618,7 +718,7 @@ def quantify_iter(engine, ctx, it, universal: bool):
         pp = [z3.substitute(p, *sub) for p in b.patterns]
         pat = [pp[0]] if len(pp) == 1 else []
         if universal:
-            return z3.ForAll(vs, z3.Implies(g, body), patterns=pat)
+            return mk_forall(vs, z3.Implies(g, body), patterns=pat)
         return z3.Exists(vs, z3.And(g, body))
     raise EngineLimit("all/any over %r" % (it,))
 
@@ -743,7 +843,7 @@ def mutates_outer_collections(stmts, env: Env) -> bool:
                     return True
             if isinstance(node, ast.AugAssign):
                 r = root_name(node.target)
-                if r is not None and r not in local:
+                if r is not None and (r not in local or r in env.vars):
                     return True
             if isinstance(node, ast.Assign):
                 for t in node.targets:
@@ -799,7 +899,7 @@ def exec_forall(engine, ctx, st: ast.For, env: Env, it):
     pat = []
     if pp and _covers_all(pp, vs):
         pat = [z3.MultiPattern(*pp)] if len(pp) > 1 else [pp[0]]
-    ctx.assume(z3.ForAll(vs, z3.Implies(g, body), patterns=pat))
+    ctx.assume(mk_forall(vs, z3.Implies(g, body), patterns=pat))
     cleanup()
 
 
@@ -881,6 +981,6 @@ def argminmax_iter(engine, ctx, it, keyfn, is_min: bool):
     ctx.assume(z3.And(0 <= w, w < it.length))
     cmp_all = key_at(w) <= key_at(i) if is_min else key_at(w) >= key_at(i)
     cmp_strict = key_at(w) < key_at(i) if is_min else key_at(w) > key_at(i)
-    ctx.assume(z3.ForAll([i], z3.Implies(z3.And(0 <= i, i < it.length), cmp_all), patterns=[z3.Select(it.arr, i)]))
-    ctx.assume(z3.ForAll([i], z3.Implies(z3.And(0 <= i, i < w), cmp_strict), patterns=[z3.Select(it.arr, i)]))
+    ctx.assume(mk_forall([i], z3.Implies(z3.And(0 <= i, i < it.length), cmp_all), patterns=[z3.Select(it.arr, i)]))
+    ctx.assume(mk_forall([i], z3.Implies(z3.And(0 <= i, i < w), cmp_strict), patterns=[z3.Select(it.arr, i)]))
     return it.at(ctx, w)
